@@ -6,6 +6,7 @@ import os
 import re
 import socket
 import threading
+import urllib.parse
 
 
 class Handler(http.server.BaseHTTPRequestHandler):
@@ -16,7 +17,7 @@ class Handler(http.server.BaseHTTPRequestHandler):
 
     def _resolve(self, path):
         root = self.server.root
-        rel = path.lstrip("/")
+        rel = urllib.parse.unquote(path.lstrip("/"))   # a static file server maps the decoded path to the file
         cands = [rel]
         m = re.fullmatch(r"(.*)/(\d+-\d+)_(\d+-\d+)_(\d+-\d+)", rel)
         if m:
